@@ -214,11 +214,11 @@ ApplyExplain(m, o0, e, step) ==
   LET f0 == ExcClass(TRUE, e, "explain.exc", step)
       N == Len(m.ts) vs == m.cfg.vars W == m.hist
       rho1 == m.offOut[1]
-      o == IF f0 = Ok /\ m.phase = "offline" /\ SignApplies(m.phi) /\ ~SatUndef(m.phi, W, N, m.cfg.S) /\ rho1 # Undef
+      o == IF f0 = Ok /\ m.phase = "offline" /\ SignApplies(m.phi) /\ rho1 # Undef
            THEN ExplainModel(m, o0, e) ELSE o0 IN
   \* "violated at time 0" is rtamt's own notion: negative robustness (explain() does nothing otherwise); robustness 0
   \* is neither (skipped); iff / xor are outside the fragment in which the sign of the robustness decides satisfaction
-  IF f0 # Ok \/ m.phase # "offline" \/ ~SignApplies(m.phi) \/ SatUndef(m.phi, W, N, m.cfg.S) \/ rho1 = Undef \/ rho1 = 0
+  IF f0 # Ok \/ m.phase # "offline" \/ ~SignApplies(m.phi) \/ rho1 = Undef \/ rho1 = 0 \/ HasUndef(m.offOut)
   THEN R(m, o, f0, 0)
   ELSE IF rho1 > 0 THEN
        (IF \A v \in vs : Reported(e, v) = {} THEN R(m, o, Ok, 0)
@@ -227,7 +227,7 @@ ApplyExplain(m, o0, e, step) ==
     LET Alt == {X \in [vs -> [1..N -> UNION {RegionVals(m.phi, W, v, N) : v \in vs}]] :
                   \A v \in vs : \A k \in 1..N :
                      (k \in Reported(e, v) => X[v][k] = W[v][k]) /\ X[v][k] \in RegionVals(m.phi, W, v, N)}
-        badX == {X \in Alt : ~SatUndef(m.phi, X, N, m.cfg.S) /\ Sat(m.phi, X, N, m.cfg.S)[1]} IN
+        badX == {X \in Alt : SatisfiedAt0(m.phi, X, N, m.cfg.S, m.cfg.M)} IN
     IF badX = {} THEN R(m, o, Ok, 0)
     ELSE R(m, o, F("explain.not_sufficient", step, <<e.rep, W>>, CHOOSE X \in badX : TRUE), 0)
 
